@@ -477,7 +477,7 @@ func (r *renderer) renderFunc(f *file, fn *Func) {
 	if len(descs) > 0 {
 		args = ", " + strings.Join(descs, ", ")
 	}
-	f.p("\tid, fail := %sCall(%q, %v%s)\n", f.vt(), fn.Name, fn.Err, args)
+	f.p("\tid, fail := %sCall(%q, %v%s)\n", f.vt(), fn.TraceName(), fn.Err, args)
 	if fn.Extra != "" {
 		f.vt()
 		f.p("\t%s\n", fn.Extra)
@@ -485,7 +485,7 @@ func (r *renderer) renderFunc(f *file, fn *Func) {
 	if fn.Err {
 		f.p("\tif fail {\n\t\treturn %s", r.mintExpr(f, fn.Out, "-1"))
 		if fn.Cleanup {
-			f.p(", func() { %sBadCleanup(%q, id) }", f.vt(), fn.Name)
+			f.p(", func() { %sBadCleanup(%q, id) }", f.vt(), fn.TraceName())
 		}
 		f.p(", %sNewErr(id)\n\t}\n", f.vt())
 	} else {
@@ -494,7 +494,7 @@ func (r *renderer) renderFunc(f *file, fn *Func) {
 	f.p("\t_ = id\n")
 	f.p("\treturn %s", r.mintExpr(f, fn.Out, "id"))
 	if fn.Cleanup {
-		f.p(", func() { %sCleanup(%q, id) }", f.vt(), fn.Name)
+		f.p(", func() { %sCleanup(%q, id) }", f.vt(), fn.TraceName())
 	}
 	if fn.Err {
 		f.p(", nil")
